@@ -16,7 +16,7 @@ RULE = ('Every <syntax> note of every segment of every shipped map file (read in
         'note is violated.')
 ASSUMPTIONS = ['an element is "present" when its value is non-empty; values used are single letters so no other check depends on the pattern except required/not-used, which the baseline run removes',
                'maps that the real loader cannot load (841, see C16 finding) are covered for monitors (1)-(2) only, through the unbound parser']
-REQUIRED_COUNTERS = ['evals:present-only-in-a-later-component', 'contract:evals', 'contract:evals:violated-note', 'notes', 'evals:semantic', 'evals:routing', 'violated:P', 'violated:R', 'violated:E', 'violated:C', 'violated:L', 'satisfied']
+REQUIRED_COUNTERS = ['evals:after-component-edit', 'evals:present-only-in-a-later-component', 'contract:evals', 'contract:evals:violated-note', 'notes', 'evals:semantic', 'evals:routing', 'violated:P', 'violated:R', 'violated:E', 'violated:C', 'violated:L', 'satisfied']
 MIN_CASES = {'quick': 100000, 'thorough': 100000}
 
 
@@ -131,6 +131,34 @@ def run(ctx):
                             if bool(got) != exp:
                                 ctx.viol('syntax:%s:%s' % (ty, 'false-violation' if exp else 'missed-violation'),
                                          'is_syntax_valid disagrees with the X12 definition of note type %s' % ty, case, {'got': got, 'expected': exp})
+                            # the SAME segment object after an edit: presence of one named position inside the segment is flipped through
+                            # component-level assignments only (set('NN-M', ...)), then the note is evaluated again
+                            inside = [i for i in idx if i <= L]
+                            if variant == 'plain' and inside and (L + sum(pat)) % 3 == 0:
+                                fi = inside[(L + len(inside)) % len(inside)]
+                                was = vals[fi - 1] != ''
+                                try:
+                                    if was:
+                                        for cj in range(1, len(seg.elements[fi - 1]) + 1):
+                                            seg.set('%02d-%d' % (fi, cj), '')
+                                    else:
+                                        seg.set('%02d-%d' % (fi, 2), 'Y')
+                                    vals2 = list(vals)
+                                    vals2[fi - 1] = '' if was else 'Y'
+
+                                    def present2(i, L=L, vals2=vals2):
+                                        return i <= L and vals2[i - 1] != ''
+                                    exp2 = ref_ok(ty, idx, present2)
+                                    got2, msg2 = pyx12.syntax.is_syntax_valid(seg, syn)
+                                    ctx.count('evals:after-component-edit')
+                                    if bool(got2) != exp2:
+                                        ctx.viol('syntax:%s:after-component-edit:%s' % (ty, 'false-violation' if exp2 else 'missed-violation'),
+                                                 'after a component-level edit of the same segment object the note is judged by the presence pattern of before the edit',
+                                                 dict(case, edited_position=fi, now=seg.format()), {'got': got2, 'expected': exp2})
+                                except Exception as ex:
+                                    ctx.viol('syntax:%s:after-component-edit:raises-%s' % (ty, type(ex).__name__), 'evaluating a note on an edited segment raised', case, {'exc': repr(ex)})
+                                # restore for the routing part
+                                seg = pyx12.segment.Segment(rseg.id + ''.join('*' + v for v in txt), '~', '*', ':')
                             if pseg is None:
                                 ctx.count('evals:unroutable-map-not-loadable')
                                 continue
